@@ -6,7 +6,7 @@ import ast
 from ..model import CFG
 from .common import site_of
 from . import counters, eqsym
-from .flow import (Oblig, calls, events, deps_of, arg_deps, facts_on_path, has_fact, check_escapes, SELF, P)
+from .flow import (facts_imply_nonempty, facts_imply_empty, Oblig, calls, events, deps_of, arg_deps, facts_on_path, has_fact, check_escapes, SELF, P)
 
 CYK = "pyformlang.cfg.cyk_table.CYKTable"
 EXPLANATION = (
@@ -76,13 +76,14 @@ def run(eng, rep, tier):
 
     # -------------------------------------------------------------- C08.2 empty word
     news = [(ev, ch) for ev, ch in summ.walk() if ev.kind == "new" and ev.callee == CYK and not ch]
-    ok = bool(news) and all(has_fact(ev.facts, "word", True) or has_fact(ev.facts, "not word", False) for ev, _ in news)
+    wname = fi.params[1] if len(fi.params) > 1 else "word"       # the word parameter, whatever it is called
+    ok = bool(news) and all(facts_imply_nonempty(ev.facts, wname) for ev, _ in news)
     ob.decide("DOM", "C08.2", fi, "cyk-only-for-non-empty-word", ok,
               "the CYK table is only built on the path where the word is non-empty",
               "the CYK table can be built for the empty word (the normal form drops epsilon)", summ,
               site=(news[0][0].site.to_json() if news else site_of(prog, fi, fi.node)))
     ge = [ev for ev, _ in calls(summ, "generate_epsilon", own=True)]
-    ok = bool(ge) and all(has_fact(ev.facts, "not word", True) or has_fact(ev.facts, "word", False) for ev in ge)
+    ok = bool(ge) and all(facts_imply_empty(ev.facts, wname) for ev in ge)
     rets = [ev for ev in summ.events if ev.kind == "ret"]
     ob.decide("DOM", "C08.2", fi, "empty-word-answered-by-generate_epsilon", ok,
               "the empty word is answered by generate_epsilon()", "the empty word is not answered by generate_epsilon()",
